@@ -288,8 +288,12 @@ def main(mod):
     for b in batches:
         b.setdefault("tier", args.tier)
         b.setdefault("seed", args.seed)
-    agg = run_batches(check, batches, nworkers=args.workers, timeout=getattr(mod, "TIMEOUT", 900),
-                      dev=getattr(mod, "DEV", False))
+    # wall-clock watchdog per batch: generous (its firing is 'inconclusive', never a verdict), 4x in the thorough tier
+    wd = getattr(mod, "TIMEOUT", 900) * (4 if args.tier == "thorough" else 1)
+    for b in batches:
+        if "timeout" in b and args.tier == "thorough":
+            b["timeout"] *= 4
+    agg = run_batches(check, batches, nworkers=args.workers, timeout=wd, dev=getattr(mod, "DEV", False))
     known = load_known(pid)
     # crashes: a check may turn an observed crash into a verdict (e.g. C07 stack overflow)
     crash_inconclusive = []
